@@ -917,7 +917,7 @@ var _ = context.Background
 
 func init() {
 	props["C02"] = func(x *Ctx) {
-		x.rule = "scanner: random streams of transaction-shaped items (valid, 22..9000 bytes, 65534..70000 bytes around the 64 KiB token limit, size fields 0xFFFFFFEC.. that wrap, truncated / 16..21-byte tails) under two random partitions each (single chunk, one byte, 4096+-1, one cut, random pieces); non-trivial = at least one token and at least two chunks; distinct = distinct (stream, partitions). sessions: scripted sessions (4 accounts, login variants, 0..14 cheap requests: keep-alive, user list, messages, chat, file list, news categories, unknown types; endings: clean EOF, truncated tail, bad parameter count, oversize, at-limit, wrapping size, short/invalid handshake, wrong password, mutated login) each run on a fresh server under 4-5 segmentations (all at once, one byte at a time, random pieces, cuts at header boundaries +-1, a single cut); non-trivial = logged in and >= 1 request dispatched; distinct = distinct stream bytes. fixed headers: ALL 2^11 partitions of the 12-byte handshake through performHandshake and ALL 2^15 partitions of the 16-byte transfer preamble through handleFileTransfer, per case (valid / other version / one bit off; valid / bad magic); transfers: preamble + flattened-file upload (2 or 3 forks, 0..40000 data bytes; also bad magic / short preamble) under 5 segmentations on fresh servers; non-trivial = valid upload; distinct = (name, payload)"
+		x.rule = "scanner: random streams of transaction-shaped items (valid, 22..9000 bytes, 65534..70000 bytes around the 64 KiB token limit, size fields 0xFFFFFFEC.. that wrap, truncated / 16..21-byte tails) under two random partitions each (single chunk, one byte, 4096+-1, one cut, random pieces); non-trivial = at least one token and at least two chunks; distinct = distinct (stream, partitions). sessions: scripted sessions (4 accounts, login variants, 0..14 cheap requests: keep-alive, user list, messages, chat, file list, news categories, unknown types; endings: clean EOF, truncated tail, bad parameter count, oversize, at-limit, wrapping size, short/invalid handshake, wrong password, mutated login) each run on a fresh server under 4-5 segmentations (all at once, one byte at a time, random pieces, cuts at header boundaries +-1, a single cut); non-trivial = logged in and >= 1 request dispatched; distinct = distinct stream bytes. fixed headers: ALL 2^11 partitions of the 12-byte handshake through performHandshake and ALL 2^15 partitions of the 16-byte transfer preamble through handleFileTransfer, per case (valid / other version / one bit off; valid / bad magic); folder uploads: 2..6 items (files of 0..9000 bytes with 2 or 3 forks, optionally a sub-folder), fresh or resumed after a first session cut in the middle of a file (server answers skip / resume / send per item), the same bytes under 5 segmentations on fresh servers; non-trivial = every folder case; distinct = (mode, stream, resumed item, cut); transfers: preamble + flattened-file upload (2 or 3 forks, 0..40000 data bytes; also bad magic / short preamble) under 5 segmentations on fresh servers; non-trivial = valid upload; distinct = (name, payload)"
 		x.assume = []string{
 			"an in-memory connection whose Read returns scripted pieces stands for TCP segmentation (kernel behaviour itself is not exercised)",
 			"bytes that end a session (undecodable transaction, EOF) are delivered only after the replies to everything before them were written, and never in the same read as the bytes before them: the server drops replies once a client is deregistered, a race that exists for every segmentation and is not what C02 is about",
@@ -926,6 +926,7 @@ func init() {
 		x.Add(&Family{Name: "scanner-partitions", Quick: 1500, Thor: 40000, Run: scannerFamily})
 		x.Add(&Family{Name: "session-segmentation", Quick: 320, Thor: 4000, Run: sessionFamily})
 		x.Add(&Family{Name: "transfer-segmentation", Quick: 48, Thor: 800, Run: transferFamily})
+		x.Add(&Family{Name: "folder-upload-segmentation", Quick: 28, Thor: 400, Run: folderUploadFamily})
 		x.Add(&Family{Name: "fixed-header-partitions", Quick: 6, Thor: 32, Run: fixedHeaderFamily})
 	}
 }
